@@ -164,3 +164,13 @@ package keeper
 //@   ensures ordered_closed: err == nil && ch.Ordering == types.ORDERED ==> k.GetChannel(ctx, P, C).State == types.CLOSED
 //@   ensures noop_absent: errIs(err, types.ErrNoOpMsg) ==> get(S0, ckey) == ""
 //@   ensures fail_unchanged: err != nil ==> world(ctx) == old(world(ctx))
+
+// ---- identifier generation (C15)
+
+//@ contract (*Keeper).GenerateChannelIdentifier
+//@   let S0 = store(ctx)
+//@   let next = unbe64(get(S0, types.KeyNextChannelSequence))
+//@   modifies world(ctx)
+//@   ensures id: result == "channel-" + dec(next)
+//@   ensures counter: store(ctx) == set(S0, types.KeyNextChannelSequence, be64((next + 1) % 18446744073709551616))
+//@   ensures only_store: world(ctx) == withKV(old(world(ctx)), k.storeService, store(ctx))
